@@ -192,6 +192,8 @@ def _check_encrypt_case(rec, st):
         if not rec.get("new_after_change") or rec["changed_sign_ok"] != tests or rec["changed_priv_same"] != descs:
             bad("original-keys-lost", "after passphrase change: unlock=%s, %d/%d spends, %d/%d private descriptor strings"
                 % (rec.get("new_after_change"), rec["changed_sign_ok"], tests, rec["changed_priv_same"], descs))
+    if "reload_encrypted" not in rec:
+        return  # the reload failed: reported through "problems"
     if not rec.get("reload_encrypted") or not rec.get("reload_locked"):
         bad("encryption-lost-after-reload", "reloaded wallet: encrypted=%s locked=%s" % (rec.get("reload_encrypted"), rec.get("reload_locked")))
     if rec.get("reload_locked_signed") or rec.get("reload_locked_getkey"):
